@@ -53,6 +53,7 @@ def gbToLines (name : Str) (content : List Str) (subs : List (Str × List Str)) 
   else if name = "ORIGIN".toList then .ok ("ORIGIN".toList :: content)
   else
     let subs := odOfList (subs.map (fun p => (strip (upper p.1), p.2)))
+    if content.isEmpty ∨ subs.any (·.2.isEmpty) then .error .valueError else   -- repaired: rejected
     let nameCol := (name :: List.replicate (content.length - 1) []) ++
       subs.flatMap (fun p => (' ' :: ' ' :: p.1) :: List.replicate (p.2.length - 1) [])
     let contentCol := content ++ subs.flatMap (·.2)
@@ -66,8 +67,8 @@ def gbIdx (g : Gb) (index : Int) (exclusive : Bool) : Except Err Nat :=
   else if j < 0 then .error .indexError   -- `self._field_pos[negative]` would wrap; not generated
   else .ok j.toNat
 
-def shiftFrom (k : Nat) (d : Int) (pos : List FieldPos) : List FieldPos :=
-  pos.mapIdx (fun i p => if i ≥ k then (((p.1 : Int) + d).toNat, ((p.2.1 : Int) + d).toNat, p.2.2) else p)
+/-- one `_field_pos` entry moved by `d` lines. -/
+def shiftP (d : Int) (p : FieldPos) : FieldPos := (((p.1 : Int) + d).toNat, ((p.2.1 : Int) + d).toNat, p.2.2)
 
 /-- `__setitem__`. -/
 def gbSet (g : Gb) (index : Int) (name : Str) (content : List Str) (subs : List (Str × List Str)) : Except Err Gb :=
@@ -82,7 +83,8 @@ def gbSet (g : Gb) (index : Int) (name : Str) (content : List Str) (subs : List 
       | some (start, oldStop, _) =>
         let ls := g.lines.take start ++ ins ++ g.lines.drop oldStop
         let shift : Int := (ins.length : Int) - ((oldStop : Int) - start)
-        let pos := (shiftFrom (k + 1) shift g.pos).set k (start, start + ins.length, upper (strip name))
+        -- entries after `k` are shifted, entry `k` is replaced
+        let pos := g.pos.take k ++ (start, start + ins.length, upper (strip name)) :: (g.pos.drop (k + 1)).map (shiftP shift)
         .ok ⟨ls, pos⟩
 
 /-- `__delitem__`. -/
@@ -93,7 +95,8 @@ def gbDel (g : Gb) (index : Int) : Except Err Gb :=
     match g.pos[k]? with
     | none => .error .indexError
     | some (start, stop, _) =>
-      let pos := (shiftFrom k (-((stop : Int) - start)) g.pos).eraseIdx k
+      -- entries from `k` on are shifted, then entry `k` is deleted
+      let pos := g.pos.take k ++ (g.pos.drop (k + 1)).map (shiftP (-((stop : Int) - start)))
       .ok ⟨g.lines.take start ++ g.lines.drop stop, pos⟩
 
 /-- `insert`. -/
@@ -104,10 +107,10 @@ def gbInsert (g : Gb) (index : Int) (name : Str) (content : List Str) (subs : Li
     match gbToLines name content subs with
     | .error e => .error e
     | .ok ins =>
-      let start := if k = 0 then 0 else match g.pos[k - 1]? with | some p => p.2.1 | none => 0
+      let start := if k = 0 then 0 else ((g.pos[k - 1]?).map (fun p => p.2.1)).getD 0
       let ls := g.lines.take start ++ ins ++ g.lines.drop start
-      let pos := shiftFrom k ins.length g.pos
-      .ok ⟨ls, pos.take k ++ (start, start + ins.length, upper (strip name)) :: pos.drop k⟩
+      -- entries from `k` on are shifted, the new entry goes in front of them
+      .ok ⟨ls, g.pos.take k ++ (start, start + ins.length, upper (strip name)) :: (g.pos.drop k).map (shiftP ins.length)⟩
 
 def gbAppend (g : Gb) (name : Str) (content : List Str) (subs : List (Str × List Str)) : Except Err Gb :=
   gbInsert g g.pos.length name content subs
